@@ -522,7 +522,7 @@ def _canon(sc):
     def cc(c):
         return (c["n_tasks"], tuple(sorted((int(t), f.get("instant"), f.get("how"), f.get("payload_mb")) for t, f in
                                           (c.get("faults") or {}).items() if f.get("instant"))),
-                tuple(sorted((c.get("pre") or {}).items())), tuple(sorted((c.get("startup") or {}).items())), c.get("pre_dispatch"))
+                json.dumps(c.get("pre"), sort_keys=True), json.dumps(c.get("startup"), sort_keys=True), c.get("pre_dispatch"))
 
     return (sc["n_jobs"], sc["managed"], tuple(cc(c) for c in sc["calls"]))
 
@@ -632,9 +632,51 @@ def _explore(ctx, scs, res, label):
     return res
 
 
+def _exitcode_stream(ctx, res, codes=range(-64, 256)):
+    """`_get_exitcode_name` (it runs in the manager thread while the TerminatedWorkerError message is built) against the
+    model's `getExitcodeName`, exhaustively over the exit codes a worker can have: -64..-1 (killed by signal 1..64,
+    the real-time ones included) and 0..255. Oracle: it returns a string for every code — it must never raise."""
+    core.use_repo()
+    import signal
+
+    from joblib.externals.loky.backend import utils as U
+
+    names = {}
+    for n in range(1, 65):
+        try:
+            names[n] = signal.Signals(n).name
+        except ValueError:
+            pass
+    table = " ".join(f"{n} {nm}" for n, nm in sorted(names.items()))
+    codes = list(codes)
+    replies = ctx.driver().run([f"exitname {e} {len(names)} {table}" for e in codes])
+    for e, rep in zip(codes, replies):
+        try:
+            got = U._get_exitcode_name(e)
+            impl = "name " + got if isinstance(got, str) and got else f"returns {got!r}"
+        except Exception as ex:  # noqa: BLE001
+            impl = "raises " + type(ex).__name__
+        res.evaluations += 1
+        res.traces_validated += 1
+        res.count("exitcode=" + ("signal-named" if -e in names else "signal-unnamed" if e < 0 else "exit"))
+        res.nontrivial.add(("exitcode", e))
+        case = dict(family="exitcode-name", exitcode=e)
+        if not impl.startswith("name "):
+            res.fail("exitcode-name-" + impl.replace(" ", "-"), case,
+                     f"_get_exitcode_name({e}) {impl}: in the manager thread this kills the thread before the executor is flagged")
+        if impl != rep:
+            res.diverge("exitcode-name", case, impl, rep)
+    try:
+        msg = U._format_exitcodes([-9, -35, -63, 0, 3, 255, None])
+        if not isinstance(msg, str):
+            res.fail("exitcode-message-not-a-string", dict(family="exitcode-name", exitcode="list"), repr(msg))
+    except Exception as ex:  # noqa: BLE001
+        res.fail("exitcode-message-raises-" + type(ex).__name__, dict(family="exitcode-name", exitcode="list"), repr(ex))
+
+
 def _new_result():
     res = Result()
-    res.rule = ("one evaluation = one scenario subprocess (2-4 Parallel calls on the real loky backend, n_jobs 2..3, with/without a "
+    res.rule = ("[exit codes: one evaluation per exit code -64..255 of _get_exitcode_name] one evaluation = one scenario subprocess (2-4 Parallel calls on the real loky backend, n_jobs 2..3, with/without a "
                 "`with` block) with a fault schedule: victims 1..n_jobs, SIGKILL/SIGTERM/SIGSEGV/os._exit(3)/os._exit(0), instant in "
                 "{arg-unpickle, task-start, mid-task, result-pickle, after-send, idle (observed / race), start-up of the next call "
                 "(observed / race), worker booting; thorough: mid-send 0.05-32 MB, 600 MB timer}; non-trivial = at least one fault; "
@@ -652,6 +694,9 @@ def run(ctx):
     res = _new_result()
     if ctx.replay:
         case = ctx.replay.get("case") or {}
+        if case.get("family") == "exitcode-name":
+            _exitcode_stream(ctx, res, codes=[case["exitcode"]] if isinstance(case.get("exitcode"), int) else range(-64, 256))
+            return res
         scs = [dict(id=i, family=case.get("family", "replay"), n_jobs=case["n_jobs"], managed=case["managed"],
                     calls=case["calls"], timeout=case.get("timeout", 60)) for i in range(3)]
         return _explore(ctx, scs, res, "replay")
@@ -667,6 +712,7 @@ def run(ctx):
     for sc in gen_scenarios(ctx.rng("main"), ctx.thorough):
         sc["id"] = len(scs)
         scs.append(sc)
+    _exitcode_stream(ctx, res)
     return _explore(ctx, scs, res, "main")
 
 
